@@ -121,6 +121,113 @@ theorem finalize_no_panic : ∀ (ks : KeySrc) (e : Trav), ks.finalize = .error e
     | error ea => simp only [ha, Except.error.injEq] at h; subst h; exact finalize_no_panic a ea ha
   | .consume _, e, h => by simp [KeySrc.finalize] at h
 
+/-- the only error `finalize` reports is `TooLong(0)` -/
+theorem finalize_err : ∀ (ks : KeySrc) (e : Trav), ks.finalize = .error e → e = .tooLong 0
+  | .list [], e, h => by simp [KeySrc.finalize] at h
+  | .list (_ :: _), e, h => by simp only [KeySrc.finalize] at h; cases h; rfl
+  | .packed w, e, h => by
+    simp only [KeySrc.finalize] at h
+    split at h
+    · cases h
+    · cases h; rfl
+  | .chain a b, e, h => by
+    simp only [KeySrc.finalize] at h
+    cases ha : a.finalize with
+    | ok u => simp only [ha] at h; exact finalize_err b e h
+    | error ea => simp only [ha, Except.error.injEq] at h; subst h; exact finalize_err a ea ha
+  | .consume _, e, h => by simp [KeySrc.finalize] at h
+
+theorem find_err (k : Key) (lk : Lookup) (e : Trav) (h : k.find lk = .error e) : e = .notFound 1 := by
+  cases k with
+  | int v =>
+    simp only [Key.find] at h
+    split at h
+    · cases h
+    · cases h; rfl
+  | str s =>
+    simp only [Key.find] at h
+    cases lk with
+    | named ns =>
+      simp only [] at h
+      cases hfi : ns.findIdx? (fun n => n.toList == s) with
+      | none => rw [hfi] at h; cases h; rfl
+      | some i => rw [hfi] at h; cases h
+    | numbered n =>
+      simp only [] at h
+      cases hp : parseUsize s with
+      | none => rw [hp] at h; cases h; rfl
+      | some i =>
+        rw [hp] at h
+        simp only [] at h
+        split at h
+        · cases h
+        · cases h; rfl
+    | homog n =>
+      simp only [] at h
+      cases hp : parseUsize s with
+      | none => rw [hp] at h; cases h; rfl
+      | some i =>
+        rw [hp] at h
+        simp only [] at h
+        split at h
+        · cases h
+        · cases h; rfl
+
+/-- the only errors `Keys::next` reports: key exhausted `TooShort(0)`, no such child
+`NotFound(1)` (or, in the model, a panic site) -/
+theorem next_err : ∀ (ks : KeySrc) (lk : Lookup) (e : Trav), ks.next lk = .error e →
+    e = .tooShort 0 ∨ e = .notFound 1 ∨ e.isPanic = true
+  | .list [], lk, e, h => by simp only [KeySrc.next] at h; cases h; exact Or.inl rfl
+  | .list (k :: rest), lk, e, h => by
+    simp only [KeySrc.next] at h
+    cases hf : k.find lk with
+    | ok i => simp [hf] at h
+    | error e' =>
+      simp only [hf, Except.error.injEq] at h
+      subst h
+      exact Or.inr (Or.inl (find_err k lk e' hf))
+  | .packed w, lk, e, h => by
+    simp only [KeySrc.next] at h
+    split at h
+    · cases h; exact Or.inr (Or.inr rfl)
+    · split at h
+      · cases h; exact Or.inl rfl
+      · split at h
+        · cases h; exact Or.inr (Or.inr rfl)
+        · split at h
+          · cases h
+          · cases h; exact Or.inr (Or.inl rfl)
+  | .chain a b, lk, e, h => by
+    simp only [KeySrc.next] at h
+    cases ha : a.next lk with
+    | ok r => simp [ha] at h
+    | error ea =>
+      have hpa := next_err a lk ea ha
+      simp only [ha] at h
+      cases ea with
+      | tooShort d =>
+        simp only [] at h
+        cases hb : b.next lk with
+        | ok r => simp [hb] at h
+        | error eb =>
+          simp only [hb, Except.error.injEq] at h
+          subst h
+          exact next_err b lk eb hb
+      | absent d => simp only [Except.error.injEq] at h; subst h; simpa [Trav.isPanic] using hpa
+      | notFound d => simp only [Except.error.injEq] at h; subst h; exact hpa
+      | tooLong d => simp only [Except.error.injEq] at h; subst h; exact hpa
+      | access d m => simp only [Except.error.injEq] at h; subst h; exact hpa
+      | invalid d m => simp only [Except.error.injEq] at h; subst h; exact hpa
+      | panic s => simp only [Except.error.injEq] at h; subst h; exact hpa
+  | .consume a, lk, e, h => by
+    simp only [KeySrc.next] at h
+    cases ha : a.next lk with
+    | ok r => simp [ha] at h
+    | error ea =>
+      simp only [ha, Except.error.injEq] at h
+      subst h
+      exact next_err a lk ea ha
+
 /-- every lookup in the tree fits -/
 def Tree.Fits : Tree → Prop
   | .leaf _ _ => True
